@@ -108,7 +108,9 @@ def install(r):
 
     @r.ext("ulid:ULID", "uuid:uuid4")
     def _ulid(I, a, k):
-        return I.ops.opaque_str("ulid")
+        v = I.ops.opaque_str("ulid")
+        I.st.ghost.setdefault("fresh_ids", []).append(v.t)  # assumed unique: generated here, equal to nothing that existed before
+        return v
 
     @r.ext("logging:getLogger")
     def _get_logger(I, a, k):
